@@ -1,7 +1,7 @@
 (* MemoTheorems.v — statements of C04, C07, C08, C13, C14 over the memoising engine model. *)
 From Coq Require Import Permutation.
 From Grule Require Import Base Values Syntax Snapshot Printer EngineGen EngineAbs Facts Eval Fresh Engine
-     EngineProofs EngineTheorems FactsProofs ActionTheorems SnapInj MemoProofs MemoKeep StateTrack Refinement RefineTheorems.
+     AnchorsEngine EngineProofs EngineTheorems FactsProofs ActionTheorems SnapInj MemoProofs MemoKeep StateTrack Refinement RefineTheorems.
 Open Scope Z_scope.
 
 (* ---- the action list of the SPEC: strictly in textual order, each statement on the facts left by the one before;
@@ -238,3 +238,79 @@ Proof.
 Qed.
 
 End MT.
+
+(* ------------------------------------------------------------------ C11, tied to the from-scratch conditions *)
+Section FetchSemantic.
+Variable rules : list rule.
+Variable meth : list (string * fval) -> string -> list val -> res (option val * list (string * fval)).
+Variable panics_inside : string -> list val -> bool.
+Variable mutating : string -> bool.
+Hypothesis meth_pure : forall fs f args ret fs', mutating f = false -> meth fs f args = Ok (ret, fs') -> fs' = fs.
+Hypothesis Hrules : rules_ok rules mutating.
+
+Notation icond := (rule_cond (vars_rules rules) meth panics_inside rules).
+Notation wfs := (when_from_scratch rules meth).
+
+Lemma thread_spec : forall fx es,
+  fst (thread facts (spec_cond meth rules) es fx) = map (fun e => (e, wfs fx (e_key e))) es.
+Proof.
+  intros fx es. induction es as [|e es IH]; simpl; auto.
+  unfold spec_cond at 1. unfold when_from_scratch at 1.
+  destruct (find (fun r => String.eqb (rname r) (e_key e)) rules) as [r|];
+    (destruct (thread facts (spec_cond meth rules) es fx) as [l u2] eqn:Et; simpl in *; rewrite IH; reflexivity).
+Qed.
+
+(* FetchMatchingRules with the working memory, from any memory contents: exactly the non-removed rules whose condition,
+   evaluated from scratch on the given facts, is true - each once, by non-increasing salience *)
+Definition C11_semantic_statement : Prop :=
+  forall reterr (ord : list entry -> list entry) (u : estate) es u' result,
+  es_fx u = [] -> (forall l, Permutation (ord l) l) -> NoDup (map e_key es) ->
+  fetch estate icond reset_all reterr ord u es = (u', result) ->
+  match result with
+  | Ok l =>
+      (forall e, In e l <-> (In e (unretract es) /\ e_deleted e = false /\ wfs (es_facts u) (e_key e) = CTrue)) /\
+      NoDup (map e_key l) /\ Sorted.StronglySorted ge_sal l /\
+      (reterr = true -> forall e, In e es -> e_deleted e = false -> wfs (es_facts u) (e_key e) <> CErr)
+  | Err => reterr = true /\ exists e, In e es /\ e_deleted e = false /\ wfs (es_facts u) (e_key e) = CErr
+  | Panic => False
+  end.
+
+Theorem C11_semantic_proved : C11_semantic_statement.
+Proof.
+  intros reterr ord u es u' result Hfx Hperm Hnd H.
+  pose proof (fetch_refines_spec_from rules meth panics_inside mutating meth_pure Hrules reterr ord u es Hfx) as Href.
+  rewrite H in Href.
+  destruct (fetch facts (spec_cond meth rules) (fun f => f) reterr ord (es_facts u) es) as [f2 r2] eqn:Es.
+  destruct Href as [-> _].
+  pose proof (C11_proved facts (spec_cond meth rules) (fun f => f) reterr ord (es_facts u) es f2 r2 Hperm Hnd Es) as HC.
+  cbv zeta in HC. rewrite thread_spec in HC.
+  set (examined := filter fguard (ord (unretract es))) in *.
+  assert (Hex: forall e, In e examined <-> In e (unretract es) /\ e_deleted e = false).
+  { intros e. unfold examined. rewrite filter_In. split.
+    - intros [A B]. split; [eapply Permutation_in; [apply Hperm|exact A]|].
+      unfold fguard in B. apply fetch_guard_spec in B. exact B.
+    - intros [A B]. split; [eapply Permutation_in; [apply Permutation_sym; apply Hperm|exact A]|].
+      unfold fguard. apply fetch_guard_spec. exact B. }
+  destruct r2 as [l| |]; [| |exact HC].
+  - destruct HC as (Hp & Hnd' & Hdel & Hs & Herr). split; [|split; [exact Hnd'|split; [exact Hs|]]].
+    + intros e. split.
+      * intros Hin. apply (Permutation_in _ Hp) in Hin. apply in_map_iff in Hin. destruct Hin as ([e0 c0] & <- & Hf).
+        apply filter_In in Hf. destruct Hf as [Hf Ht]. apply in_map_iff in Hf. destruct Hf as (e1 & E1 & Hin1). inversion E1; subst.
+        simpl in *. apply Hex in Hin1. destruct Hin1 as [A B]. split; [exact A|split; [exact B|]].
+        destruct (wfs (es_facts u) (e_key e0)); try discriminate; reflexivity.
+      * intros (A & B & C). apply (Permutation_in _ (Permutation_sym Hp)). apply in_map_iff. exists (e, CTrue). split; [reflexivity|].
+        apply filter_In. split; [|reflexivity]. apply in_map_iff. exists e. split; [rewrite C; reflexivity|]. apply Hex. auto.
+    + intros Hr e Hin Hd Hc. specialize (Herr Hr). rewrite forallb_forall in Herr.
+      set (e' := {| e_key := e_key e; e_name := e_name e; e_sal := e_sal e; e_retracted := false; e_deleted := e_deleted e |}).
+      assert (Hin': In e' examined).
+      { apply Hex. split; [|exact Hd]. unfold unretract. apply in_map_iff. exists e. auto. }
+      specialize (Herr (e', wfs (es_facts u) (e_key e))).
+      assert (H0: In (e', wfs (es_facts u) (e_key e)) (map (fun e0 => (e0, wfs (es_facts u) (e_key e0))) examined)).
+      { apply in_map_iff. exists e'. auto. }
+      specialize (Herr H0). simpl in Herr. rewrite Hc in Herr. discriminate.
+  - destruct HC as [Hr He]. split; [exact Hr|]. apply existsb_exists in He. destruct He as ([e0 c0] & Hin & Hc).
+    apply in_map_iff in Hin. destruct Hin as (e1 & E1 & Hin1). inversion E1; subst. apply Hex in Hin1. destruct Hin1 as [A B].
+    unfold unretract in A. apply in_map_iff in A. destruct A as (e2 & E2 & Hin2). exists e2. subst e0. simpl in *.
+    split; [exact Hin2|]. split; [exact B|]. destruct (wfs (es_facts u) (e_key e2)); try discriminate; reflexivity.
+Qed.
+End FetchSemantic.
